@@ -49,7 +49,7 @@ REQUIRED = ["sphere_checked", "cap_checked", "frustum_checked", "ss_intersection
             "sf_intersections", "sf_unions", "ss_tangent", "ss_nested", "ss_concentric",
             "ss_smaller_first", "sf_far_end_order", "sf_taper_narrowing", "sf_taper_widening",
             "sf_frustum_inside_sphere", "sf_h_below_r", "sf_h_above_r", "sf_axis_aligned",
-            "sf_union_from_frustum"]
+            "sf_union_from_frustum", "integer_centres"]
 FLOOR = {"quick": 3000, "thorough": 80000}
 SHARDS = {"quick": 8, "thorough": 16}
 
@@ -100,10 +100,19 @@ def execute(ctx, case):
 
     k = case["kind"]
     c = np.array(case["c"], dtype=np.float64)
+    if case.get("int_centre"):
+        # centres given as integers (tuple of ints / integer array), as voxel-grid callers do
+        c = np.round(c)
+        ctx.count("integer_centres")
+    cin = c
+    if case.get("int_centre") == "tuple":
+        cin = tuple(int(v) for v in c)
+    elif case.get("int_centre") == "array":
+        cin = c.astype(np.int64)
     try:
         if k == "sphere":
             r = case["r1"]
-            got = VolSphere(c, r).get_volume()
+            got = VolSphere(cin, r).get_volume()
             want = np.pi * integ(lambda z: r * r - z * z, -r, r, [])
             ctx.count("sphere_checked")
             return _cmp(ctx, case, "sphere volume", got, want, want, want)
@@ -127,7 +136,7 @@ def execute(ctx, case):
             u = _dir(case)
             c2 = c + u * d
             dd = float(np.linalg.norm(c - c2))  # the distance the library will see
-            s1, s2 = VolSphere(c, r1), VolSphere(c2, r2)
+            s1, s2 = VolSphere(cin, r1), VolSphere(c2, r2)
             ti = true_ss(r1, r2, dd)
             v1, v2 = 4 / 3 * np.pi * r1 ** 3, 4 / 3 * np.pi * r2 ** 3
             if r1 < r2:
@@ -152,8 +161,8 @@ def execute(ctx, case):
             far = case["far"]
             c2 = c + u * h
             hh = float(np.linalg.norm(c2 - c))
-            fc = VolFrustumCone(c, r1, c2, r2) if not far else VolFrustumCone(c2, r2, c, r1)
-            s = VolSphere(c, r1)
+            fc = VolFrustumCone(cin, r1, c2, r2) if not far else VolFrustumCone(c2, r2, cin, r1)
+            s = VolSphere(cin, r1)
             ti = true_sf(r1, r2, hh)
             vs = 4 / 3 * np.pi * r1 ** 3
             vf = np.pi * hh * (r1 * r1 + r1 * r2 + r2 * r2) / 3
@@ -213,6 +222,8 @@ def draw(rng):
     axis_aligned = bool(rng.random() < 0.3)
     dirv = AXES[int(rng.integers(0, len(AXES)))] if axis_aligned else rng.normal(size=3).tolist()
     base = {"r1": r1, "c": c, "u": dirv, "axis_aligned": axis_aligned}
+    if rng.random() < 0.2:
+        base["int_centre"] = str(rng.choice(["tuple", "array"]))
     if u < 0.04:
         return dict(base, kind="sphere")
     if u < 0.10:
